@@ -3,7 +3,7 @@
    N / Z / positive stay Coq datatypes; no Extract Constant. *)
 From Coq Require Extraction.
 From Coq Require Import ExtrOcamlBasic.
-From CandidV Require Import Consts model.Base model.Hash model.Leb model.Principal model.Ty model.Gfp model.Sub model.Val model.Wire model.Coerce.
+From CandidV Require Import Consts model.Base model.Hash model.Leb model.Principal model.Ty model.Gfp model.Sub model.Val model.Wire model.Coerce model.Annot.
 Extraction Language OCaml.
 Set Extraction Optimize.
 Extraction "model.ml"
@@ -16,4 +16,5 @@ Extraction "model.ml"
   Leb.nat_decode Leb.int_decode Leb.decode_nat128 Leb.decode_int128 Leb.de_nat Leb.de_int Leb.de_int_of_nat
   Principal.to_text Principal.from_text Principal.try_from_slice Principal.crc32 Principal.b32_encode Principal.b32_decode
   Ty.ty_eqb Ty.trace Ty.tuple Sub.sub_dec Sub.sub_dec_fast Sub.eq_dec
-  Val.has_type Wire.enc_val Wire.dec_val Wire.dec_header Wire.table_name Coerce.coerce Coerce.spec_decode Coerce.spec_decode_untyped Coerce.decode_fuel.
+  Val.has_type Wire.enc_val Wire.dec_val Wire.dec_header Wire.table_name Coerce.coerce Coerce.spec_decode Coerce.spec_decode_untyped Coerce.spec_decode_untyped_raw Coerce.decode_fuel
+  Annot.annotate_top Annot.annotate_args Annot.vsize.
